@@ -32,6 +32,7 @@ func (m *Model) setForWrite(tk string, ts int64) *setEnt {
 	m.setDrop(tk)
 	e := &setEnt{m: map[string]struct{}{}}
 	m.set[tk] = e
+	m.noteGen("set", tk, ts)
 	return e
 }
 
@@ -45,6 +46,7 @@ func (m *Model) applySet(o Op) Exp {
 		e := m.setForWrite(tk, o.Ts)
 		n := int64(0)
 		for _, x := range o.A {
+			m.noteAdd("set", tk, x)
 			if _, ok := e.m[x]; !ok {
 				e.m[x] = struct{}{}
 				n++
